@@ -1049,14 +1049,18 @@ class MeshRegion:
                 * self.tanBeta
                 / self.hy
             )
-            self.g12 = self.Rxy * numpy.abs(self.Bpxy) * self.tanBeta / self.hy
+            # Note: Grad(y) = (yhat - bpsign*tanBeta*Grad(psi)/|Grad(psi)|)/hy, with yhat the
+            # unit vector in the direction of increasing y, and |Grad(psi)| = R*|Bp| =
+            # R*bpsign*Bpxy, so Grad(x).Grad(y) = -R*Bpxy*tanBeta/hy with the signed
+            # Bpxy
+            self.g12 = -self.Rxy * self.Bpxy * self.tanBeta / self.hy
             self.g13 = (
-                -self.Rxy * self.Bpxy * self.dphidy * self.tanBeta / self.hy
+                self.bpsign * self.Rxy * self.Bpxy * self.dphidy * self.tanBeta / self.hy
                 - self.I * (self.Rxy * self.Bpxy) ** 2
             )
             self.g23 = (
                 -self.bpsign * self.dphidy / (self.hy * self.cosBeta) ** 2
-                - self.Rxy * numpy.abs(self.Bpxy) * self.I * self.tanBeta / self.hy
+                + self.Rxy * self.Bpxy * self.I * self.tanBeta / self.hy
             )
 
             self.J = self.hy / self.Bpxy
@@ -1069,7 +1073,7 @@ class MeshRegion:
             self.g_33 = self.Rxy**2
             self.g_12 = (
                 self.bpsign * self.I * self.dphidy * self.Rxy**2
-                - self.hy * self.tanBeta / (self.Rxy * numpy.abs(self.Bpxy))
+                + self.hy * self.tanBeta / (self.Rxy * self.Bpxy)
             )
             self.g_13 = self.I * self.Rxy**2
             self.g_23 = self.bpsign * self.dphidy * self.Rxy**2
